@@ -215,7 +215,11 @@ func GenMsg(r *rand.Rand, mid, from string, to string) MsgSpec {
 		case 2:
 			data = []byte{0}
 		default:
-			data = genBytes(r, 1+r.Intn(3000), r.Intn(4))
+			n := 1 + r.Intn(3000)
+			if n%7 == 0 { // one in seven is larger than the 4 KiB / 32 KiB buffers along the way
+				n = 4000 + (n*13)%36000
+			}
+			data = genBytes(r, n, r.Intn(4))
 		}
 		name := fmt.Sprintf("file%d.bin", i)
 		if r.Intn(4) == 0 {
